@@ -679,6 +679,16 @@ func verifTokenOnce(c verifCase) (out verifOut) {
 				st.drop, st.dropHits = &verifDrop{ran: ran, fire: done}, 0
 				st.mu.Unlock()
 			}
+			// a CONNECTION-level fault with a healthy store and a live context: the pooled connection on which the
+			// call's script command was written is dropped without a reply (reset by a proxy, idle connection
+			// killed, fail-over); every other connection works, PING works.  The store is reachable: the command
+			// is sent again on another connection (go-redis' retry) and the call is answered by the shared bucket.
+			connDrop := vstr(o, "conn") == "drop"
+			if connDrop {
+				st.mu.Lock()
+				st.drop, st.dropHits = &verifDrop{ran: false, fire: func() {}}, 0
+				st.mu.Unlock()
+			}
 			var ok bool
 			switch vstr(o, "api") {
 			case "AllowNCtx":
@@ -691,7 +701,7 @@ func verifTokenOnce(c verifCase) (out verifOut) {
 				ok = lims[i].AllowN(time.UnixMilli(now), n)
 			}
 			done()
-			if during {
+			if during || connDrop {
 				st.mu.Lock()
 				hits := st.dropHits
 				st.drop = nil
